@@ -813,7 +813,8 @@ def r7_census(ctx: Context) -> None:
     ctx.rule("C08.R7", "Workload.get_cancelled_task_graphs returns exactly the graphs for which is_cancelled() holds; "
                        "TaskGraph.is_cancelled = any sink CANCELLED")
     wl = ctx.repo.mod(WORKLOAD).cls("Workload")
-    fn = method(wl, "get_cancelled_task_graphs")
+    from .c02 import _selection_as_loop
+    fn = _selection_as_loop(method(wl, "get_cancelled_task_graphs"))
     g = cfgmod.build(fn)
     rets = [r for r in ast.walk(fn) if isinstance(r, ast.Return)]
     lst = rets[0].value.id if len(rets) == 1 and isinstance(rets[0].value, ast.Name) else None
